@@ -13,6 +13,9 @@ use amq_protocol::protocol::basic::{self, AMQPMethod as B, AMQPProperties};
 use amq_protocol::protocol::connection::AMQPMethod as Cn;
 use amq_protocol::protocol::{access, channel, connection, queue, tx, AMQPClass};
 
+const N_CLIENT_ONLY: u8 = 21;
+const N_UNIMPLEMENTED: u8 = 10;
+
 pub struct C07;
 
 #[derive(Clone, Debug, PartialEq)]
@@ -53,19 +56,46 @@ fn encode(l: &Letter, body_seed: &mut u8) -> Vec<u8> {
         Letter::ConsumeOk { ch, tag } => wire::method(&mut b, *ch, &AMQPClass::Basic(B::ConsumeOk(basic::ConsumeOk { consumer_tag: tag.clone() }))),
         Letter::Cancel { ch, tag, nowait } => wire::method(&mut b, *ch, &AMQPClass::Basic(B::Cancel(basic::Cancel { consumer_tag: tag.clone(), nowait: *nowait }))),
         Letter::ClientOnly { ch, which } => {
-            let m = match which % 4 {
+            // every method that only a client may send (AMQP 0-9-1 + RabbitMQ extensions), one per value
+            use amq_protocol::protocol::{confirm, exchange};
+            let t = || amq_protocol::types::FieldTable::default();
+            let m = match which % N_CLIENT_ONLY {
                 0 => AMQPClass::Basic(B::Publish(basic::Publish { ticket: 0, exchange: "x".into(), routing_key: "k".into(), mandatory: false, immediate: false })),
                 1 => AMQPClass::Queue(queue::AMQPMethod::Declare(queue::Declare { ticket: 0, queue: "q".into(), passive: false, durable: false, exclusive: false, auto_delete: false, nowait: false, arguments: Default::default() })),
                 2 => AMQPClass::Channel(channel::AMQPMethod::Open(channel::Open { out_of_band: String::new() })),
-                _ => AMQPClass::Connection(Cn::Tune(connection::Tune { channel_max: 1, frame_max: 4096, heartbeat: 0 })),
+                3 => AMQPClass::Connection(Cn::Tune(connection::Tune { channel_max: 1, frame_max: 4096, heartbeat: 0 })),
+                4 => AMQPClass::Basic(B::Qos(basic::Qos { prefetch_size: 0, prefetch_count: 1, global: false })),
+                5 => AMQPClass::Basic(B::Consume(basic::Consume { ticket: 0, queue: "q".into(), consumer_tag: "c".into(), no_local: false, no_ack: false, exclusive: false, nowait: false, arguments: t() })),
+                6 => AMQPClass::Basic(B::Get(basic::Get { ticket: 0, queue: "q".into(), no_ack: false })),
+                7 => AMQPClass::Basic(B::Recover(basic::Recover { requeue: true })),
+                8 => AMQPClass::Basic(B::RecoverAsync(basic::RecoverAsync { requeue: false })),
+                9 => AMQPClass::Basic(B::Reject(basic::Reject { delivery_tag: 1, requeue: false })),
+                10 => AMQPClass::Confirm(confirm::AMQPMethod::Select(confirm::Select { nowait: false })),
+                11 => AMQPClass::Exchange(exchange::AMQPMethod::Declare(exchange::Declare { ticket: 0, exchange: "x".into(), type_: "direct".into(), passive: false, durable: false, auto_delete: false, internal: false, nowait: false, arguments: t() })),
+                12 => AMQPClass::Exchange(exchange::AMQPMethod::Delete(exchange::Delete { ticket: 0, exchange: "x".into(), if_unused: false, nowait: false })),
+                13 => AMQPClass::Exchange(exchange::AMQPMethod::Bind(exchange::Bind { ticket: 0, destination: "d".into(), source: "s".into(), routing_key: "k".into(), nowait: false, arguments: t() })),
+                14 => AMQPClass::Exchange(exchange::AMQPMethod::Unbind(exchange::Unbind { ticket: 0, destination: "d".into(), source: "s".into(), routing_key: "k".into(), nowait: false, arguments: t() })),
+                15 => AMQPClass::Queue(queue::AMQPMethod::Delete(queue::Delete { ticket: 0, queue: "q".into(), if_unused: false, if_empty: false, nowait: false })),
+                16 => AMQPClass::Queue(queue::AMQPMethod::Bind(queue::Bind { ticket: 0, queue: "q".into(), exchange: "x".into(), routing_key: "k".into(), nowait: false, arguments: t() })),
+                17 => AMQPClass::Queue(queue::AMQPMethod::Purge(queue::Purge { ticket: 0, queue: "q".into(), nowait: false })),
+                18 => AMQPClass::Queue(queue::AMQPMethod::Unbind(queue::Unbind { ticket: 0, queue: "q".into(), exchange: "x".into(), routing_key: "k".into(), arguments: t() })),
+                19 => AMQPClass::Connection(Cn::Open(connection::Open { virtual_host: "/".into(), capabilities: String::new(), insist: false })),
+                _ => AMQPClass::Connection(Cn::StartOk(connection::StartOk { client_properties: t(), mechanism: "PLAIN".into(), response: "x".into(), locale: "en_US".into() })),
             };
             wire::method(&mut b, *ch, &m)
         }
         Letter::Unimplemented { ch, which } => {
-            let m = match which % 3 {
+            let m = match which % N_UNIMPLEMENTED {
                 0 => AMQPClass::Tx(tx::AMQPMethod::SelectOk(tx::SelectOk {})),
                 1 => AMQPClass::Access(access::AMQPMethod::RequestOk(access::RequestOk { ticket: 1 })),
-                _ => AMQPClass::Channel(channel::AMQPMethod::Flow(channel::Flow { active: false })),
+                2 => AMQPClass::Channel(channel::AMQPMethod::Flow(channel::Flow { active: false })),
+                3 => AMQPClass::Channel(channel::AMQPMethod::FlowOk(channel::FlowOk { active: true })),
+                4 => AMQPClass::Access(access::AMQPMethod::Request(access::Request { realm: "r".into(), exclusive: false, passive: true, active: true, write: true, read: true })),
+                5 => AMQPClass::Tx(tx::AMQPMethod::Select(tx::Select {})),
+                6 => AMQPClass::Tx(tx::AMQPMethod::Commit(tx::Commit {})),
+                7 => AMQPClass::Tx(tx::AMQPMethod::CommitOk(tx::CommitOk {})),
+                8 => AMQPClass::Tx(tx::AMQPMethod::Rollback(tx::Rollback {})),
+                _ => AMQPClass::Tx(tx::AMQPMethod::RollbackOk(tx::RollbackOk {})),
             };
             wire::method(&mut b, *ch, &m)
         }
@@ -265,15 +295,15 @@ fn gen_letters(cs: &mut ChoiceStream, known_tag: &str) -> Vec<Letter> {
                     Letter::Cancel { ch: if ch == 5 || ch == 0 { 1 } else { ch }, tag: if cs.choose("cancel_known", 3) != 0 { known_tag.to_string() } else { "no-such-tag".to_string() }, nowait: cs.choose("cancel_nowait", 2) == 1 }
                 }
             }
-            12 => Letter::ClientOnly { ch: if ch == 5 { 1 } else { ch }, which: cs.choose("which", 4) as u8 },
-            13 => Letter::Unimplemented { ch: if ch == 5 { 2 } else { ch }, which: cs.choose("which", 3) as u8 },
+            12 => Letter::ClientOnly { ch: if ch == 5 { 1 } else { ch }, which: cs.choose("which", N_CLIENT_ONLY as u32) as u8 },
+            13 => Letter::Unimplemented { ch: if ch == 5 { 2 } else { ch }, which: cs.choose("which", N_UNIMPLEMENTED as u32) as u8 },
             14 => Letter::Channel0Unknown { which: cs.choose("which", 3) as u8 },
             _ => Letter::Heartbeat,
         };
         // Connection-class client-only method is meant for a non-zero channel
         let l = match l {
             Letter::ClientOnly { ch: 0, which } => Letter::ClientOnly { ch: 1, which },
-            Letter::Unimplemented { ch: 0, which } if which % 3 == 2 => Letter::Unimplemented { ch: 1, which },
+            Letter::Unimplemented { ch: 0, which } if matches!(which % N_UNIMPLEMENTED, 2 | 3) => Letter::Unimplemented { ch: 1, which },
             x => x,
         };
         v.push(l);
@@ -311,7 +341,7 @@ impl Scenario for C07 {
         3 << 30
     }
     fn rule(&self) -> String {
-        "Seeded sequences of 1-16 syntactically valid frames sent by the simulated server into an established session (channel 1 open with a consumer, channel 2 open, channel 5 not open, channel 0), over an alphabet with one letter per arm of the client's frame dispatch: Deliver (known / unknown tag), Return, unsolicited GetOk, content header with announced size from {0,1,10,37,2^31,2^32,2^63,2^64-1}, body frames of 0..37 bytes, ConsumeOk (duplicate / fresh tag), client-only methods, unimplemented classes, unexpected channel-0 methods, heartbeats; a coherent Deliver+header+body prefix is often prepended and cut at a random point so that every collector state (idle, after method, after header with partial body) is entered before the stray frame. The sequence ends with Connection.Close(320). Worker processes run under a 3 GiB address-space limit, so an allocation sized by an announced body aborts the process, which the driver reports with the case. Oracle: reference reader written from the statement (first violating frame decides: FrameUnexpected / ReceivedFrameWithBogusChannelId / UnknownConsumerTag / DuplicateConsumerTag / ClientException with Connection.Close carrying 530 or 540 as the last frame written; otherwise ServerClosedConnection(320)); the consumer received exactly the deliveries completed before that point, byte-identical; no panic. Unsolicited GetOk / fresh ConsumeOk put a run into safety-half-only mode. Non-trivial = the sequence contains a violation reached with the collector of that channel not idle, or an announced size >= 2^31; distinct = hash of the letter sequence.".to_string()
+        "Seeded sequences of 1-16 syntactically valid frames sent by the simulated server into an established session (channel 1 open with a consumer, channel 2 open, channel 5 not open, channel 0), over an alphabet with one letter per arm of the client's frame dispatch: Deliver (known / unknown tag), Return, unsolicited GetOk, content header with announced size from {0,1,10,37,2^31,2^32,2^63,2^64-1}, body frames of 0..37 bytes, ConsumeOk (duplicate / fresh tag), every one of the 21 client-only methods (Basic.Publish/Qos/Consume/Get/Recover/RecoverAsync/Reject, Confirm.Select, Channel.Open, the Exchange and Queue requests, Connection.Tune/Open/StartOk on a channel), the 10 methods of unimplemented classes (Access, Tx, Channel.Flow/FlowOk), unexpected channel-0 methods, heartbeats; a coherent Deliver+header+body prefix is often prepended and cut at a random point so that every collector state (idle, after method, after header with partial body) is entered before the stray frame. The sequence ends with Connection.Close(320). Worker processes run under a 3 GiB address-space limit, so an allocation sized by an announced body aborts the process, which the driver reports with the case. Oracle: reference reader written from the statement (first violating frame decides: FrameUnexpected / ReceivedFrameWithBogusChannelId / UnknownConsumerTag / DuplicateConsumerTag / ClientException with Connection.Close carrying 530 or 540 as the last frame written; otherwise ServerClosedConnection(320)); the consumer received exactly the deliveries completed before that point, byte-identical; no panic. Unsolicited GetOk / fresh ConsumeOk put a run into safety-half-only mode. Non-trivial = the sequence contains a violation reached with the collector of that channel not idle, or an announced size >= 2^31; distinct = hash of the letter sequence.".to_string()
     }
     fn plan(&self, thorough: bool, seed: u64) -> Vec<CaseSpec> {
         plan_random("C07", "violations", seed, if thorough { 600_000 } else { 40_000 })
